@@ -363,6 +363,49 @@ Section Pss.
     rewrite !clear_top_xor_cancel in B4 by auto.
     apply zeros_one_inj in B4. destruct B4 as [_ B4]. symmetry. exact B4.
   Qed.
+  (* ---- SaltLength 0 = auto-detection, as crypto/rsa codes it ---- *)
+  Lemma index01_zeros_one p (t : bytes) : index01 (zeros p ++ 1 :: t) = Some p.
+  Proof.
+    induction p as [|p IH]; cbn [zeros repeat app index01]; [reflexivity|].
+    change (repeat 0 p) with (zeros p). rewrite IH. reflexivity.
+  Qed.
+
+  (* the DB that EMSA-PSS-VERIFY recomputes from an encoding is PS || 01 || salt *)
+  Lemma encode_db_recovered h mHash emBits salt EM :
+    emsa_pss_encode Hash h mHash emBits salt = Some EM ->
+    let emLen := ((emBits + 7) / 8)%nat in
+    let dbLen := (emLen - hlen h - 1)%nat in
+    clear_top (8 * emLen - emBits)
+      (xorb (firstn dbLen EM) (mgf1 Hash h (firstn (hlen h) (skipn dbLen EM)) dbLen))
+    = zeros (emLen - length salt - hlen h - 2) ++ 1 :: salt.
+  Proof.
+    intros He emLen dbLen.
+    destruct (emsa_pss_encode_shape h mHash emBits salt EM He) as [L1 [L2 [L3 [F1 [F2 F3]]]]].
+    fold emLen in L2, L3, F1, F2, F3. fold dbLen in F1, F2.
+    rewrite F1, F2.
+    pose proof (zb_le7 emBits) as Hz. fold emLen in Hz.
+    apply clear_top_xor_cancel.
+    - rewrite mgf1_length, app_length, zeros_length. cbn [length]. unfold dbLen. lia.
+    - destruct (emLen - length salt - hlen h - 2)%nat as [|p]; cbn [zeros repeat app top_clear]; apply N.ltb_lt.
+      + assert (2 ^ 1 <= 2 ^ N.of_nat (8 - (8 * emLen - emBits))) by (apply N.pow_le_mono_r; lia).
+        change (2 ^ 1) with 2 in H. lia.
+      + apply N.neq_0_lt_0. apply N.pow_nonzero. lia.
+  Qed.
+
+  Theorem emsa_pss_verify_auto_iff h mHash EM emBits :
+    emsa_pss_verify_auto Hash h mHash EM emBits = true <->
+    exists sLen, emsa_pss_verify Hash h mHash EM emBits sLen = true.
+  Proof.
+    unfold emsa_pss_verify_auto. split.
+    - destruct (index01 _) as [ps|]; [|discriminate]. intros Hv. eexists. exact Hv.
+    - intros [sLen Hv].
+      destruct (emsa_pss_verify_only_encodings h mHash EM emBits sLen Hv) as [salt [Ls He]].
+      rewrite (encode_db_recovered h mHash emBits salt EM He), index01_zeros_one.
+      destruct (emsa_pss_encode_shape h mHash emBits salt EM He) as [_ [L2 _]].
+      replace ((emBits + 7) / 8 - hlen h - 1 - ((emBits + 7) / 8 - length salt - hlen h - 2) - 1)%nat
+        with sLen by lia.
+      exact Hv.
+  Qed.
 End Pss.
 
 (* ------------------------------------------------------------------ *)
@@ -522,3 +565,54 @@ Section Rsassa.
     rewrite Nat2N.id. exact Hv.
   Qed.
 End Rsassa.
+
+(* ------------------------------------------------------------------ *)
+(* crypto/rsa's SaltLength handling                                     *)
+
+Section GoOptions.
+  Variable Hash : hasht -> bytes -> bytes.
+  Variable rsaep : bytes -> N -> N -> N.
+  Hypothesis Hash_len : forall h m, length (Hash h m) = hlen h.
+
+  (* a positive SaltLength is the strict RFC verification with that sLen *)
+  Lemma go_pss_verify_positive n e h sl d sig :
+    sl <> 0 -> go_pss_verify Hash rsaep n e h sl d sig = rfc_pss_verify Hash rsaep n e h sl d sig.
+  Proof. intros Hs. unfold go_pss_verify. apply N.eqb_neq in Hs. rewrite Hs. reflexivity. Qed.
+
+  (* SaltLength 0: accepted iff the RFC verification accepts for SOME salt length *)
+  Theorem go_pss_verify_zero_iff n e h d sig :
+    go_pss_verify Hash rsaep n e h 0 d sig = true <->
+    exists sl : N, rfc_pss_verify Hash rsaep n e h sl d sig = true.
+  Proof.
+    unfold go_pss_verify, rfc_pss_verify. cbn [N.eqb].
+    destruct (negb (Nat.eqb (length sig) (k_octets n))).
+    { split; [discriminate|]. intros [sl H]. discriminate. }
+    destruct (rsavp1 rsaep n e (os2ip sig)) as [m|].
+    2:{ split; [discriminate|]. intros [sl H]. discriminate. }
+    destruct (i2osp ((mod_bits n - 1 + 7) / 8) m) as [EM|].
+    2:{ split; [discriminate|]. intros [sl H]. discriminate. }
+    rewrite (emsa_pss_verify_auto_iff Hash Hash_len). split.
+    - intros [sLen Hv]. exists (N.of_nat sLen). rewrite Nat2N.id. exact Hv.
+    - intros [sl Hv]. exists (N.to_nat sl). exact Hv.
+  Qed.
+
+  (* in both cases the signature has the length of the modulus *)
+  Lemma go_pss_verify_length n e h sl d sig :
+    go_pss_verify Hash rsaep n e h sl d sig = true -> length sig = rsa_sig_len n.
+  Proof.
+    intros Hv. assert (Hr : exists sl', rfc_pss_verify Hash rsaep n e h sl' d sig = true).
+    { destruct (N.eq_dec sl 0) as [->|Hn].
+      - apply go_pss_verify_zero_iff. exact Hv.
+      - exists sl. rewrite <- go_pss_verify_positive by exact Hn. exact Hv. }
+    destruct Hr as [sl' Hr]. rewrite rfc_pss_is_std in Hr. unfold std_pss in Hr.
+    apply andb_true_iff in Hr. destruct Hr as [Hl _]. apply Nat.eqb_eq. exact Hl.
+  Qed.
+
+  Lemma go_pss_is_std n e h sl d sig :
+    go_pss_verify Hash rsaep n e h sl d sig = std_pss (go_pss_verify Hash rsaep) n e h sl d sig.
+  Proof.
+    unfold std_pss. destruct (go_pss_verify Hash rsaep n e h sl d sig) eqn:E.
+    - apply go_pss_verify_length in E. apply Nat.eqb_eq in E. rewrite E. reflexivity.
+    - rewrite andb_false_r. reflexivity.
+  Qed.
+End GoOptions.
